@@ -180,6 +180,13 @@ func runSolverCtx(ctx context.Context, s solverSpec, file string, timeoutS int) 
 // all three solvers. The first decisive answer wins: unsat from any attempt proves; sat counts only from a full query.
 func (v *Verifier) solveOne(o *Obligation, dir string, timeoutS int) *SolveResult {
 	res := &SolveResult{Obl: o}
+	if o.Static != "" {
+		res.Status = o.Static
+		res.Solver = "ssa-frame-analysis"
+		res.Output = o.StaticDetail
+		res.Tried = []string{"ssa-frame-analysis:" + o.Static}
+		return res
+	}
 	file := filepath.Join(dir, mangle(o.Name)+".smt2")
 	text := v.smtText(o, true)
 	res.Size = len(text)
